@@ -9,5 +9,5 @@ use plumbing::*;
 include!("../../../harness/src/c11_body.rs");
 
 fn main() {
-    serve(|line| run_r(line));
+    serve(|line| if line.starts_with('P') { run_probe() } else { run_r(line) });
 }
